@@ -312,3 +312,24 @@ Proof.
   - destruct (Ha a Hlt (Hb a Hpos)) as [E|H]; [lia|exact H].
   - apply Hk; [exact Hpos|now apply Hb|]. unfold responds in Hra. apply andb_true_iff in Hra. tauto.
 Qed.
+
+(* non-vacuity of the history statement: two servers and a client joined through the first node, a lookup *)
+Example strongly_connected_nonvacuous :
+  let evs := [EJoin true [0]; EJoin true [0]; EJoin false [1]; ELookup 2 true] in
+  hist_ok (join [] true []) evs /\
+  strongly_connected (fold_left nstep evs (join [] true [])) /\
+  responds (fold_left nstep evs (join [] true [])) 2 = true.
+Proof.
+  assert (H: hist_ok (join [] true []) [EJoin true [0]; EJoin true [0]; EJoin false [1]; ELookup 2 true]).
+  { cbn [hist_ok]. repeat split.
+    - intros x [<-|[]]. vm_compute. lia.
+    - right. exists 0. split; [now left|]. split; [vm_compute; reflexivity|now left].
+    - intros x [<-|[]]. vm_compute. lia.
+    - right. exists 0. split; [now left|]. split; [vm_compute; reflexivity|now left].
+    - intros x [<-|[]]. vm_compute. lia.
+    - right. exists 1. split; [now left|]. split; [vm_compute; reflexivity|]. right. vm_compute. reflexivity. }
+  cbv zeta. split; [exact H|]. split; [|vm_compute; reflexivity].
+  apply hub_strongly_connected; [exact (hub_history _ _ hub_start H)|].
+  intros a Ha. assert (L: length (fold_left nstep [EJoin true [0]; EJoin true [0]; EJoin false [1]; ELookup 2 true] (join [] true [])) = 4) by (vm_compute; reflexivity).
+  rewrite L in Ha. destruct a as [|[|[|[|a]]]]; try lia; vm_compute; discriminate.
+Qed.
